@@ -12,6 +12,18 @@
 //!    `config-disagree <conf>=<answer>|…` when the builds do not agree byte for byte.
 #[path = "../ops_bits.rs"]
 mod ops_bits;
+#[path = "../ops_cmp.rs"]
+mod ops_cmp;
+#[path = "../ops_conv.rs"]
+mod ops_conv;
+#[path = "../ops_cross.rs"]
+mod ops_cross;
+#[path = "../ops_float.rs"]
+mod ops_float;
+#[path = "../ops_nt.rs"]
+mod ops_nt;
+#[path = "../ops_ratio.rs"]
+mod ops_ratio;
 #[path = "../ops_div.rs"]
 mod ops_div;
 #[path = "../ops_int.rs"]
@@ -87,6 +99,30 @@ mod ops_log {
     }
 }
 
+/// `<group>/<op>`: the op as the binary `exec_<group>` dispatches it (same modules, same order), so
+/// that every property's case generator can be replayed in every configuration without op-name clashes
+fn grouped(op: &str, args: &[&str]) -> Option<verif_harness::util::Res> {
+    let (group, inner) = op.split_once('/')?;
+    let chain: &[verif_harness::Dispatch] = match group {
+        "int" => &[ops_int::dispatch, ops_bits::dispatch],
+        "div" => &[ops_div::dispatch, ops_int::dispatch],
+        "bits" => &[ops_bits::dispatch, ops_cmp::dispatch],
+        "text" => &[ops_text::dispatch, ops_text::dispatch_float],
+        "conv" => &[ops_conv::dispatch],
+        "nt" => &[ops_nt::dispatch],
+        "float" => &[ops_float::dispatch],
+        "ratio" => &[ops_ratio::dispatch],
+        "cross" => &[ops_cross::dispatch],
+        _ => return Some(Err(format!("bad-op unknown-group:{}", group))),
+    };
+    for d in chain {
+        if let Some(r) = d(inner, args) {
+            return Some(r);
+        }
+    }
+    Some(Err(format!("bad-op {}", op)))
+}
+
 /// which configuration this binary was compiled in (worker op `cfg.self`)
 fn self_config(op: &str, _args: &[&str]) -> Option<verif_harness::util::Res> {
     if op != "cfg.self" {
@@ -160,7 +196,10 @@ fn ask(workers: &mut BTreeMap<String, Worker>, manifest: &BTreeMap<String, Strin
         let st = w.child.wait().map(|s| s.to_string()).unwrap_or_default();
         return format!("crash {} {}", st.replace(' ', "_"), line.trim().replace(' ', "_"));
     }
-    line[2..].trim_end().to_string()
+    // a trailing ` #key=value…` annotation (which call path was taken, how many forms ran) is not part of
+    // the answer: the paths legitimately differ between configurations (vlib/core.py drops it as well)
+    let ans = line[2..].trim_end();
+    ans.split(" #").next().unwrap_or(ans).trim_end().to_string()
 }
 
 fn front() {
@@ -226,12 +265,14 @@ fn main() {
     if std::env::var_os("DASHU_CFG_WORKER").is_some() {
         verif_harness::run_main(&[
             self_config,
+            grouped,
             ops_serde::dispatch,
             ops_log::dispatch,
             ops_int::dispatch,
             ops_div::dispatch,
             ops_bits::dispatch,
             ops_text::dispatch,
+            ops_text::dispatch_float,
         ]);
     } else {
         front();
